@@ -45,6 +45,37 @@ CANDIDATES = {
 }
 
 
+def _gen_key(*parts):
+    """Key of the tree-independent artefacts (model-check results, generated behaviours and case tables): they depend on
+    the specification, this file and the seed only, never on the repository under test."""
+    import hashlib
+    h = hashlib.sha256()
+    for f in sorted(glob.glob(os.path.join(SPEC_DIR, "*.tla"))) + [os.path.abspath(__file__)]:
+        h.update(open(f, "rb").read())
+    return h.hexdigest()[:16] + "-" + "-".join(str(x) for x in parts)
+
+
+def _gen_cached(key, fn):
+    d = os.path.join(vk.CACHE, "gen", FAMILY)
+    os.makedirs(d, exist_ok=True)
+    p = os.path.join(d, key + ".json")
+    if os.path.exists(p) and not os.environ.get("VERIF_TM_NOGENCACHE"):
+        try:
+            return json.load(open(p))
+        except Exception:
+            pass
+    v = fn()
+    for f in sorted(glob.glob(os.path.join(d, "*.json")), key=os.path.getmtime)[:-24]:
+        try:
+            os.remove(f)
+        except OSError:
+            pass
+    with open(p + ".tmp", "w") as f:
+        json.dump(v, f)
+    os.replace(p + ".tmp", p)
+    return v
+
+
 def mc_configs(tier):
     base = dict(UBD0=8, DRIFT=2, LN=1, LD=3)
     if tier == "quick":
@@ -88,6 +119,13 @@ def sizes(tier):
 
 def run_mc(tier, result, errors):
     try:
+        result["mc"] = _gen_cached(_gen_key("mc", tier, os.environ.get("VERIF_TM_MC", "")), lambda: _run_mc(tier))
+    except Exception as e:  # noqa
+        errors.append(e)
+
+
+def _run_mc(tier):
+    if True:
         d = vk.scratch_spec(SPEC_DIR)
         out = {}
         cfgs = mc_configs(tier)
@@ -110,10 +148,8 @@ def run_mc(tier, result, errors):
                           "constants": {k: (sorted(v) if isinstance(v, set) else v) for k, v in c.items()}}
         for name, r in vk.pmap(one, list(cfgs), 3):
             out[name] = r
-        result["mc"] = out
         shutil.rmtree(d, ignore_errors=True)
-    except Exception as e:  # noqa
-        errors.append(e)
+        return out
 
 
 # ------------------------------------------------------------------------------------------ generation
@@ -414,8 +450,8 @@ def run_family(tier, seed, binary=None):
     th.start()
     if binary is None:
         binary = vk.build_harness("tmclient")
-    walks = gen_walks(tier, seed, workdir)
-    cases, counts = gen_cases(tier, workdir)
+    walks = _gen_cached(_gen_key("walks", tier, seed), lambda: gen_walks(tier, seed, workdir))
+    cases, counts = _gen_cached(_gen_key("cases", tier), lambda: gen_cases(tier, workdir))
     scheds = walks + cases
     vk.log("generated %d walks + %d cases in %.1fs" % (len(walks), len(cases), time.time() - t0))
     lines = drive(binary, scheds, workdir, "main", sizes(tier)["shards"])
